@@ -420,9 +420,19 @@ func TestCheck(t *testing.T) {
 		r.Watchdog(60 * time.Second)
 	}
 	var sc scenario
+	var wf wfailT
+	if mon.ReplayCase(&wf) && wf.WFail {
+		judgeWFail(r, t, wf)
+		return
+	}
 	if mon.ReplayCase(&sc) {
 		judge(r, t, sc)
 		return
+	}
+	for i, wf := range wfailGrid() {
+		if r.Mine(i) {
+			judgeWFail(r, t, wf)
+		}
 	}
 	g := grid(r.Quick())
 	for i, sc := range g {
